@@ -1287,7 +1287,13 @@ fn gen_c17_giant(r: &mut Rng) -> Plan {
         }),
     };
     let mut cmds = vec![mk_prep(1, 2), mk_prep(2, 1)];
-    let big_len = (U24 as i64 + r.irange(-9, 3)) as u32; // payload = 7 + data
+    // payload = 7 + data; one, two or three full packets
+    let kfull = match r.weighted(&[50, 35, 15]) {
+        0 => 1i64,
+        1 => 2,
+        _ => 3,
+    };
+    let big_len = (kfull * U24 as i64 + r.irange(-9, 3)) as u32;
     let chunks: Vec<(u32, u16, Blob)> = vec![
         (1, 0, blob_bytes(r, 5)),
         (
